@@ -3,10 +3,10 @@
 package internal
 
 import (
-	crand "crypto/rand"
-	"io"
 	"bytes"
+	crand "crypto/rand"
 	"fmt"
+	"io"
 	"math/big"
 	"testing"
 
@@ -18,11 +18,11 @@ import (
 // C15 — complete point arithmetic in all projective representations and
 // aliasing patterns; strict, round-tripping encodings.
 
-func clonePt(p *SM2Point) *SM2Point {
+func zvClonePt(p *SM2Point) *SM2Point {
 	return &SM2Point{x: new(fiat.SM2Element).Set(p.x), y: new(fiat.SM2Element).Set(p.y), z: new(fiat.SM2Element).Set(p.z)}
 }
 
-func rawEq(a, b *SM2Point) bool {
+func zvRawEq(a, b *SM2Point) bool {
 	return *a.x.GetRaw() == *b.x.GetRaw() && *a.y.GetRaw() == *b.y.GetRaw() && *a.z.GetRaw() == *b.z.GetRaw()
 }
 
@@ -43,17 +43,17 @@ func TestVerifC15(t *testing.T) {
 	var pool []named
 	pool = append(pool, named{ref.Inf(), "inf"}, named{ref.G(), "G"}, named{ref.G().Neg(), "-G"})
 	for m := int64(2); m <= 5; m++ {
-		pool = append(pool, named{ref.BaseMul(bi(m)), fmt.Sprintf("%dG", m)}, named{ref.BaseMul(bi(m)).Neg(), fmt.Sprintf("-%dG", m)})
+		pool = append(pool, named{ref.BaseMul(zvBi(m)), fmt.Sprintf("%dG", m)}, named{ref.BaseMul(zvBi(m)).Neg(), fmt.Sprintf("-%dG", m)})
 	}
-	pool = append(pool, named{ref.BaseMul(new(big.Int).Rsh(n, 1)), "(n-1)/2 G"}, named{ref.BaseMul(new(big.Int).Add(new(big.Int).Rsh(n, 1), bi(1))), "(n+1)/2 G"})
+	pool = append(pool, named{ref.BaseMul(new(big.Int).Rsh(n, 1)), "(n-1)/2 G"}, named{ref.BaseMul(new(big.Int).Add(new(big.Int).Rsh(n, 1), zvBi(1))), "(n+1)/2 G"})
 	// a point with x = 0 if one exists on the curve (y^2 = b)
-	if P, ok := ref.LiftX(bi(0)); ok {
+	if P, ok := ref.LiftX(zvBi(0)); ok {
 		pool = append(pool, named{P, "x=0"})
 	}
 	for q := 0; q < hk.N(8, 40); q++ {
-		pool = append(pool, named{ref.BaseMulFast(randScalarI(rng)), "random"})
+		pool = append(pool, named{ref.BaseMulFast(zvRandScalarI(rng)), "random"})
 	}
-	for _, P := range patternedPoints(rng, hk.N(6, 24)) {
+	for _, P := range zvPatternedPoints(rng, hk.N(6, 24)) {
 		pool = append(pool, named{P, "internal-limb-pattern-x"})
 	}
 	if sps, scls, serr := ref.SpecialPoints(); serr != nil {
@@ -86,7 +86,7 @@ func TestVerifC15(t *testing.T) {
 				v.Lsh(v, 64)
 				switch lr.Intn(4) {
 				case 1:
-					v.Or(v, bi(1))
+					v.Or(v, zvBi(1))
 				case 2:
 					v.Or(v, new(big.Int).SetUint64(^uint64(0)))
 				case 3:
@@ -95,17 +95,17 @@ func TestVerifC15(t *testing.T) {
 			}
 			v.Mod(v, ref.SM2P)
 			if v.Sign() == 0 {
-				v = bi(1)
+				v = zvBi(1)
 			}
 			return v
 		}
 		switch lr.Intn(5) {
 		case 0:
-			return bi(1)
+			return zvBi(1)
 		case 1:
-			return new(big.Int).Sub(ref.SM2P, bi(1))
+			return new(big.Int).Sub(ref.SM2P, zvBi(1))
 		case 2:
-			return bi(2)
+			return zvBi(2)
 		default:
 			return new(big.Int).SetBytes(lr.Bytes(32))
 		}
@@ -143,97 +143,97 @@ func TestVerifC15(t *testing.T) {
 			relation = "P+(-P)"
 		}
 		check := func(op, alias string, got *SM2Point, want ref.Pt) {
-			g, _ := toRef(got)
-			d := hk.D{"op": op, "alias": alias, "p1": ptHex(A.P), "p2": ptHex(B.P), "got": ptHex(g), "want": ptHex(want)}
+			g, _ := zvToRef(got)
+			d := hk.D{"op": op, "alias": alias, "p1": zvPtHex(A.P), "p2": zvPtHex(B.P), "got": zvPtHex(g), "want": zvPtHex(want)}
 			if !g.Eq(want) {
 				r.Violation(fmt.Sprintf("%s-wrong:%s,%s", op, relation, alias), d)
 			}
-			if !onCurveProjective(got) {
+			if !zvOnCurveProjective(got) {
 				r.Violation(fmt.Sprintf("%s-result-off-curve:%s,%s", op, relation, alias), d)
 			}
 			r.Eval(fmt.Sprintf("%s:%s,%s", op, relation, alias))
 		}
 		// fresh receiver
-		p1, p2 := fromRef(A.P, lambdas(lr)), fromRef(B.P, lambdas(lr))
-		s1, s2 := clonePt(p1), clonePt(p2)
+		p1, p2 := zvFromRef(A.P, lambdas(lr)), zvFromRef(B.P, lambdas(lr))
+		s1, s2 := zvClonePt(p1), zvClonePt(p2)
 		q := NewSM2Point()
 		ret := q.Add(p1, p2)
 		check("add", "fresh", q, want)
 		if ret != q {
 			r.Violation("add-does-not-return-receiver", hk.D{})
 		}
-		if !rawEq(p1, s1) || !rawEq(p2, s2) {
-			r.Violation("add-modifies-operand", hk.D{"p1": ptHex(A.P), "p2": ptHex(B.P)})
+		if !zvRawEq(p1, s1) || !zvRawEq(p2, s2) {
+			r.Violation("add-modifies-operand", hk.D{"p1": zvPtHex(A.P), "p2": zvPtHex(B.P)})
 		}
 		// q = p1
-		p1, p2 = fromRef(A.P, lambdas(lr)), fromRef(B.P, lambdas(lr))
+		p1, p2 = zvFromRef(A.P, lambdas(lr)), zvFromRef(B.P, lambdas(lr))
 		p1.Add(p1, p2)
 		check("add", "q=p1", p1, want)
 		// q = p2
-		p1, p2 = fromRef(A.P, lambdas(lr)), fromRef(B.P, lambdas(lr))
+		p1, p2 = zvFromRef(A.P, lambdas(lr)), zvFromRef(B.P, lambdas(lr))
 		p2.Add(p1, p2)
 		check("add", "q=p2", p2, want)
 		if pr.a == pr.b {
 			// p1 = p2 (same object) and all three the same
-			p1 = fromRef(A.P, lambdas(lr))
+			p1 = zvFromRef(A.P, lambdas(lr))
 			q = NewSM2Point().Add(p1, p1)
 			check("add", "p1=p2", q, A.P.Dbl())
 			p1.Add(p1, p1)
 			check("add", "q=p1=p2", p1, A.P.Dbl())
-			p1 = fromRef(A.P, lambdas(lr))
+			p1 = zvFromRef(A.P, lambdas(lr))
 			q = NewSM2Point().Double(p1)
 			check("double", "fresh", q, A.P.Dbl())
 			p1.Double(p1)
 			check("double", "q=p", p1, A.P.Dbl())
-			p1 = fromRef(A.P, lambdas(lr))
+			p1 = zvFromRef(A.P, lambdas(lr))
 			q = NewSM2Point().Negate(p1)
 			check("negate", "fresh", q, A.P.Neg())
 			p1.Negate(p1)
 			check("negate", "q=p", p1, A.P.Neg())
 			// P + (-P) with different representatives
-			p1, p2 = fromRef(A.P, lambdas(lr)), fromRef(A.P.Neg(), lambdas(lr))
+			p1, p2 = zvFromRef(A.P, lambdas(lr)), zvFromRef(A.P.Neg(), lambdas(lr))
 			check("add", "P+(-P)rescaled", NewSM2Point().Add(p1, p2), ref.Inf())
 		}
 		// receiver is a VALUE COPY of an operand (c := *p): a different struct that shares the operand's
 		// coordinate elements - what a point stored by value in a slice, map or struct field is. An
 		// implementation that detects overlap by comparing point addresses misses it.
 		{
-			p1, p2 = fromRef(A.P, lambdas(lr)), fromRef(B.P, lambdas(lr))
+			p1, p2 = zvFromRef(A.P, lambdas(lr)), zvFromRef(B.P, lambdas(lr))
 			c := *p1
 			c.Add(p1, p2)
 			check("add", "q=copy-of-p1", &c, want)
-			p1, p2 = fromRef(A.P, lambdas(lr)), fromRef(B.P, lambdas(lr))
+			p1, p2 = zvFromRef(A.P, lambdas(lr)), zvFromRef(B.P, lambdas(lr))
 			c = *p2
 			c.Add(p1, p2)
 			check("add", "q=copy-of-p2", &c, want)
-			p1, p2 = fromRef(A.P, lambdas(lr)), fromRef(B.P, lambdas(lr))
+			p1, p2 = zvFromRef(A.P, lambdas(lr)), zvFromRef(B.P, lambdas(lr))
 			c2 := *p2
 			c2.Add(p1, &c2) // operand is itself the copy
 			check("add", "q=p2=copy", &c2, want)
-			p1, p2 = fromRef(A.P, lambdas(lr)), fromRef(B.P, lambdas(lr))
+			p1, p2 = zvFromRef(A.P, lambdas(lr)), zvFromRef(B.P, lambdas(lr))
 			c = *p1
 			check("select", "q=copy-of-p1,cond=0", c.Select(p1, p2, 0), B.P)
 			if pr.a == pr.b {
-				p1 = fromRef(A.P, lambdas(lr))
+				p1 = zvFromRef(A.P, lambdas(lr))
 				c = *p1
 				c.Double(p1)
 				check("double", "q=copy-of-p", &c, A.P.Dbl())
-				p1 = fromRef(A.P, lambdas(lr))
+				p1 = zvFromRef(A.P, lambdas(lr))
 				arr := []SM2Point{*p1}
 				arr[0].Double(p1)
 				check("double", "q=slice-element-copy-of-p", &arr[0], A.P.Dbl())
-				p1 = fromRef(A.P, lambdas(lr))
+				p1 = zvFromRef(A.P, lambdas(lr))
 				c = *p1
 				c.Add(p1, p1)
 				check("add", "q=copy-of-p1=p2", &c, A.P.Dbl())
-				p1 = fromRef(A.P, lambdas(lr))
+				p1 = zvFromRef(A.P, lambdas(lr))
 				c = *p1
 				c.Negate(p1)
 				check("negate", "q=copy-of-p", &c, A.P.Neg())
 			}
 		}
 		// Select
-		p1, p2 = fromRef(A.P, lambdas(lr)), fromRef(B.P, lambdas(lr))
+		p1, p2 = zvFromRef(A.P, lambdas(lr)), zvFromRef(B.P, lambdas(lr))
 		check("select", "cond=1", NewSM2Point().Select(p1, p2, 1), A.P)
 		check("select", "cond=0", NewSM2Point().Select(p1, p2, 0), B.P)
 		p1.Select(p1, p2, 0)
@@ -244,10 +244,10 @@ func TestVerifC15(t *testing.T) {
 	for i := 0; i < hk.N(300, 5000); i++ {
 		P := pool[rng.Intn(len(pool))].P
 		if i%3 == 0 {
-			P = ref.BaseMulFast(randScalarI(rng))
+			P = ref.BaseMulFast(zvRandScalarI(rng))
 		}
 		lam := lambdas(rng)
-		p := fromRef(P, lam)
+		p := zvFromRef(P, lam)
 		safe, fast := p.Bytes(), p.Bytes_Unsafe()
 		var want []byte
 		if P.Inf {
@@ -255,7 +255,7 @@ func TestVerifC15(t *testing.T) {
 		} else {
 			want = append([]byte{4}, append(ref.B32(P.X), ref.B32(P.Y)...)...)
 		}
-		d := hk.D{"P": ptHex(P), "lambda": lam.Text(16), "bytes": hk.Hex(safe), "bytes_unsafe": hk.Hex(fast)}
+		d := hk.D{"P": zvPtHex(P), "lambda": lam.Text(16), "bytes": hk.Hex(safe), "bytes_unsafe": hk.Hex(fast)}
 		if !bytes.Equal(safe, want) {
 			r.Violation("bytes-wrong", d)
 		}
@@ -263,7 +263,7 @@ func TestVerifC15(t *testing.T) {
 			r.Violation("bytes_unsafe-wrong", d)
 		}
 		ax, axu := p.GetAffineX(), p.GetAffineX_Unsafe()
-		wx := bi(0)
+		wx := zvBi(0)
 		if !P.Inf {
 			wx = P.X
 		}
@@ -272,11 +272,11 @@ func TestVerifC15(t *testing.T) {
 			r.Violation("getaffinex-wrong", d)
 		}
 		// decode(encode) = identity, into a receiver holding something else
-		recv := fromRef(ref.G(), bi(3))
+		recv := zvFromRef(ref.G(), zvBi(3))
 		q, err := recv.SetBytes(want)
 		if err != nil || q != recv {
 			r.Violation("setbytes-rejects-own-encoding", d)
-		} else if g, _ := toRef(recv); !g.Eq(P) {
+		} else if g, _ := zvToRef(recv); !g.Eq(P) {
 			r.Violation("setbytes-roundtrip-wrong", d)
 		}
 		// the results belong to the caller: it overwrites them (a buffer reused for the next message, a big.Int used as an
@@ -288,14 +288,14 @@ func TestVerifC15(t *testing.T) {
 			fast[j] ^= 0x5a
 		}
 		ax.SetInt64(-7)
-		axu.Lsh(axu, 3).Add(axu, bi(1))
+		axu.Lsh(axu, 3).Add(axu, zvBi(1))
 		if !bytes.Equal(p.Bytes(), want) || !bytes.Equal(p.Bytes_Unsafe(), want) || p.GetAffineX().Cmp(wx) != 0 || p.GetAffineX_Unsafe().Cmp(wx) != 0 {
 			r.Violation("conversion-wrong-after-the-caller-overwrote-an-earlier-result", d)
 		}
 		cls := "finite"
 		if P.Inf {
 			cls = "inf"
-		} else if leading(ref.B32(P.X)) > 0 || leading(ref.B32(P.Y)) > 0 {
+		} else if zvLeading(ref.B32(P.X)) > 0 || zvLeading(ref.B32(P.Y)) > 0 {
 			cls = "finite-leading-zero-coordinate"
 		}
 		r.Eval("encode:" + cls)
@@ -303,15 +303,15 @@ func TestVerifC15(t *testing.T) {
 	// coordinates with leading zero bytes (padding path of Bytes_Unsafe): search small x
 	cnt := 0
 	for x := int64(1); x < 400 && cnt < 20; x++ {
-		P, ok := ref.LiftX(bi(x))
+		P, ok := ref.LiftX(zvBi(x))
 		if !ok {
 			continue
 		}
 		cnt++
-		p := fromRef(P, new(big.Int).SetBytes(rng.Bytes(32)))
+		p := zvFromRef(P, new(big.Int).SetBytes(rng.Bytes(32)))
 		want := append([]byte{4}, append(ref.B32(P.X), ref.B32(P.Y)...)...)
 		if !bytes.Equal(p.Bytes(), want) || !bytes.Equal(p.Bytes_Unsafe(), want) {
-			r.Violation("bytes-wrong:small-x", hk.D{"P": ptHex(P)})
+			r.Violation("bytes-wrong:small-x", hk.D{"P": zvPtHex(P)})
 		}
 		r.Eval("encode:small-x")
 	}
@@ -350,10 +350,10 @@ func TestVerifC15(t *testing.T) {
 			a.Add(a, a)
 			wantA, op = A.Neg().Dbl(), "a.Negate(a);a.Add(a,a)"
 		}
-		ga, _ := toRef(a)
-		gb, _ := toRef(b)
-		gc, _ := toRef(c)
-		d := hk.D{"op": op, "A": ptHex(A), "B": ptHex(B), "C": ptHex(C)}
+		ga, _ := zvToRef(a)
+		gb, _ := zvToRef(b)
+		gc, _ := zvToRef(c)
+		d := hk.D{"op": op, "A": zvPtHex(A), "B": zvPtHex(B), "C": zvPtHex(C)}
 		if !ga.Eq(wantA) {
 			r.Violation("decoded-point-as-receiver-wrong", d)
 		}
@@ -374,7 +374,7 @@ func TestVerifC15(t *testing.T) {
 			name string
 			rd   io.Reader
 		}
-		P := ref.BaseMulFast(randScalarI(rng))
+		P := ref.BaseMulFast(zvRandScalarI(rng))
 		want := append([]byte{4}, append(ref.B32(P.X), ref.B32(P.Y)...)...)
 		for _, sc := range []src{{"all-zero", c15constReader(0)}, {"all-ff", c15constReader(0xff)}, {"empty", bytes.NewReader(nil)}, {"failing", c15failReader{}}, {"p-then-zero", io.MultiReader(bytes.NewReader(ref.B32(ref.SM2P)), c15constReader(0))}} {
 			saved := crand.Reader
@@ -383,13 +383,13 @@ func TestVerifC15(t *testing.T) {
 			var gx *big.Int
 			var dbl ref.Pt
 			p, msg, _, _ := hk.Try(func() {
-				rep := fromRef(P, lambdas(rng))
+				rep := zvFromRef(P, lambdas(rng))
 				gotB, gotU, gx = rep.Bytes(), rep.Bytes_Unsafe(), rep.GetAffineX()
-				dbl, _ = toRef(NewSM2Point().Double(rep))
+				dbl, _ = zvToRef(NewSM2Point().Double(rep))
 			})
 			crand.Reader = saved
 			if p || !bytes.Equal(gotB, want) || !bytes.Equal(gotU, want) || gx == nil || gx.Cmp(P.X) != 0 || !dbl.Eq(P.Dbl()) {
-				r.Violation("result-depends-on-the-process-wide-randomness-source:"+sc.name, hk.D{"point": ptHex(P), "bytes": hk.Hex(gotB), "want": hk.Hex(want), "panic": msg})
+				r.Violation("result-depends-on-the-process-wide-randomness-source:"+sc.name, hk.D{"point": zvPtHex(P), "bytes": hk.Hex(gotB), "want": hk.Hex(want), "panic": msg})
 			}
 			r.Eval("hostile-global-randomness:" + sc.name)
 		}
@@ -409,7 +409,7 @@ func TestVerifC15(t *testing.T) {
 		shadow := make([]ref.Pt, nObj)
 		for i := range objs {
 			shadow[i] = pool[lr.Intn(len(pool))].P
-			objs[i] = fromRef(shadow[i], lambdas(lr))
+			objs[i] = zvFromRef(shadow[i], lambdas(lr))
 		}
 		var hist []string
 		for step := 0; step < 30; step++ {
@@ -457,7 +457,7 @@ func TestVerifC15(t *testing.T) {
 				// variable-point multiplication of a long-lived object (result into another object)
 				k := lr.Bytes([]int{32, 32, 1, 16, 33}[lr.Intn(5)])
 				if lr.Intn(4) == 0 {
-					k = ref.B32(bi(int64(lr.Intn(40))))
+					k = ref.B32(zvBi(int64(lr.Intn(40))))
 				}
 				res, err := ScalarMult(objs[b], k)
 				if err != nil {
@@ -465,8 +465,8 @@ func TestVerifC15(t *testing.T) {
 					continue
 				}
 				want := shadow[b].Mul(new(big.Int).SetBytes(k))
-				if g, _ := toRef(res); !g.Eq(want) {
-					r.Violation("walk:scalarmult-wrong-on-long-lived-point", hk.D{"history": append(hist, fmt.Sprintf("ScalarMult(o%d,%x)", b, k)), "P": ptHex(shadow[b]), "k": hk.Hex(k), "got": ptHex(g), "want": ptHex(want)})
+				if g, _ := zvToRef(res); !g.Eq(want) {
+					r.Violation("walk:scalarmult-wrong-on-long-lived-point", hk.D{"history": append(hist, fmt.Sprintf("ScalarMult(o%d,%x)", b, k)), "P": zvPtHex(shadow[b]), "k": hk.Hex(k), "got": zvPtHex(g), "want": zvPtHex(want)})
 				}
 				objs[a].Set(res)
 				shadow[a] = want
@@ -474,14 +474,14 @@ func TestVerifC15(t *testing.T) {
 			case 8:
 				g, sc := lr.Bytes(32), lr.Bytes(32)
 				if lr.Intn(3) == 0 {
-					sc = ref.B32(bi(int64(lr.Intn(9000))))
+					sc = ref.B32(zvBi(int64(lr.Intn(9000))))
 				}
 				res, err := ScalarMixedMult_Unsafe(g, objs[b], sc)
 				if err != nil {
 					continue
 				}
 				want := ref.BaseMulFast(new(big.Int).SetBytes(g)).Add(shadow[b].Mul(new(big.Int).SetBytes(sc)))
-				if gg, _ := toRef(res); !gg.Eq(want) {
+				if gg, _ := zvToRef(res); !gg.Eq(want) {
 					r.Violation("walk:mixedmult-wrong-on-long-lived-point", hk.D{"history": append(hist, fmt.Sprintf("MixedMult(%x,o%d,%x)", g, b, sc))})
 				}
 				objs[a].Set(res)
@@ -496,7 +496,7 @@ func TestVerifC15(t *testing.T) {
 				hist = append(hist, fmt.Sprintf("o%d.Set(ScalarBaseMult)", a))
 			case 10:
 				// rescale the representation in place: same point, different (X:Y:Z)
-				objs[a] = fromRef(shadow[a], lambdas(lr))
+				objs[a] = zvFromRef(shadow[a], lambdas(lr))
 				hist = append(hist, fmt.Sprintf("o%d:=rescaled", a))
 			default:
 				// conversions on a long-lived object
@@ -512,8 +512,8 @@ func TestVerifC15(t *testing.T) {
 				hist = append(hist, fmt.Sprintf("o%d.Bytes()", a))
 			}
 			for i := range objs {
-				if g, _ := toRef(objs[i]); !g.Eq(shadow[i]) {
-					r.Violation("walk:object-differs-from-shadow", hk.D{"history": hist, "object": i, "got": ptHex(g), "want": ptHex(shadow[i])})
+				if g, _ := zvToRef(objs[i]); !g.Eq(shadow[i]) {
+					r.Violation("walk:object-differs-from-shadow", hk.D{"history": hist, "object": i, "got": zvPtHex(g), "want": zvPtHex(shadow[i])})
 					shadow[i] = g // resynchronise so that one defect is reported once per walk
 					continue
 				}
@@ -531,7 +531,7 @@ func TestVerifC15(t *testing.T) {
 					wantInf = 1
 				}
 				if objs[i].IsInfinity() != wantInf {
-					r.Violation("walk:IsInfinity-wrong-on-long-lived-point", hk.D{"history": hist, "object": i, "got": objs[i].IsInfinity(), "want": wantInf, "z_is_zero": rawBig(objs[i].z).Sign() == 0})
+					r.Violation("walk:IsInfinity-wrong-on-long-lived-point", hk.D{"history": hist, "object": i, "got": objs[i].IsInfinity(), "want": wantInf, "z_is_zero": zvRawBig(objs[i].z).Sign() == 0})
 				}
 				p, msg, _, _ := hk.Try(func() {
 					gotB, gotU = objs[i].Bytes(), objs[i].Bytes_Unsafe()
@@ -541,7 +541,7 @@ func TestVerifC15(t *testing.T) {
 				})
 				if p || !bytes.Equal(gotB, want) || !bytes.Equal(gotU, want) || (gx != nil && gx.Cmp(shadow[i].X) != 0) {
 					r.Violation("walk:conversion-wrong-on-long-lived-point", hk.D{"history": hist, "object": i, "bytes": hk.Hex(gotB), "bytes_unsafe": hk.Hex(gotU), "want": hk.Hex(want), "panic": msg})
-					objs[i] = fromRef(shadow[i], lambdas(lr))
+					objs[i] = zvFromRef(shadow[i], lambdas(lr))
 				}
 			}
 		}
@@ -549,21 +549,21 @@ func TestVerifC15(t *testing.T) {
 	}
 	// package-level state must be what it was: the generator, b, 1 and [1]G
 	{
-		if g, _ := toRef(sm2G); !g.Eq(ref.G()) {
+		if g, _ := zvToRef(sm2G); !g.Eq(ref.G()) {
 			r.Violation("package-state-corrupted:sm2G", hk.D{})
 		}
-		if rawBig(sm2B).Cmp(ref.SM2B) != 0 {
+		if zvRawBig(sm2B).Cmp(ref.SM2B) != 0 {
 			r.Violation("package-state-corrupted:sm2B", hk.D{})
 		}
-		if rawBig(sm2ElementOne).Cmp(bi(1)) != 0 {
-			r.Violation("package-state-corrupted:sm2ElementOne", hk.D{"value": rawBig(sm2ElementOne).Text(16)})
+		if zvRawBig(sm2ElementOne).Cmp(zvBi(1)) != 0 {
+			r.Violation("package-state-corrupted:sm2ElementOne", hk.D{"value": zvRawBig(sm2ElementOne).Text(16)})
 		}
 		one := make([]byte, 32)
 		one[31] = 1
 		if p1, err := ScalarBaseMult(one); err != nil {
 			r.Violation("package-state-corrupted:[1]G", hk.D{})
-		} else if g, _ := toRef(p1); !g.Eq(ref.G()) {
-			r.Violation("package-state-corrupted:[1]G", hk.D{"got": ptHex(g)})
+		} else if g, _ := zvToRef(p1); !g.Eq(ref.G()) {
+			r.Violation("package-state-corrupted:[1]G", hk.D{"got": zvPtHex(g)})
 		}
 		r.Eval("package-state-after-workload")
 	}
@@ -608,9 +608,9 @@ func TestVerifC15(t *testing.T) {
 		encs = append(encs, enc{b, "bitflip"})
 	}
 	// non-canonical coordinates
-	lim := new(big.Int).Sub(b256, ref.SM2P)
+	lim := new(big.Int).Sub(zvB256, ref.SM2P)
 	for x := int64(0); x < 60; x++ {
-		P, ok := ref.LiftX(bi(x))
+		P, ok := ref.LiftX(zvBi(x))
 		if !ok {
 			continue
 		}
@@ -620,7 +620,7 @@ func TestVerifC15(t *testing.T) {
 		}
 	}
 	{
-		span := new(big.Int).Sub(b256, ref.SM2P)
+		span := new(big.Int).Sub(zvB256, ref.SM2P)
 		found := 0
 		for tries := 0; found < hk.N(30, 300) && tries < 20000; tries++ {
 			x0 := new(big.Int).SetBytes(rng.Bytes(29))
@@ -630,7 +630,7 @@ func TestVerifC15(t *testing.T) {
 			case 2:
 				x0 = new(big.Int).Sub(span, new(big.Int).SetBytes(rng.Bytes(3)))
 			case 3:
-				x0 = new(big.Int).Add(new(big.Int).Lsh(bi(1), uint(64+rng.Intn(160))), new(big.Int).SetBytes(rng.Bytes(4)))
+				x0 = new(big.Int).Add(new(big.Int).Lsh(zvBi(1), uint(64+rng.Intn(160))), new(big.Int).SetBytes(rng.Bytes(4)))
 			}
 			if x0.Sign() < 0 || x0.Cmp(span) >= 0 {
 				continue
@@ -646,7 +646,7 @@ func TestVerifC15(t *testing.T) {
 	// the coordinates of VALID points in containers other than the two the statement allows: bare X||Y (64 bytes),
 	// 04||X, X alone, 04||X||Y||00, 00||04||X||Y, a doubled prefix
 	for q := 0; q < hk.N(6, 40); q++ {
-		P := ref.BaseMulFast(randScalarI(rng))
+		P := ref.BaseMulFast(zvRandScalarI(rng))
 		x, y := ref.B32(P.X), ref.B32(P.Y)
 		cat := func(parts ...[]byte) []byte {
 			var o []byte
@@ -685,8 +685,8 @@ func TestVerifC15(t *testing.T) {
 		if len(e.b) == 65 && e.b[0] == 4 && ref.OnCurve(ref.Int(e.b[1:33]), ref.Int(e.b[33:])) {
 			isValid = true
 		}
-		recv := fromRef(ref.BaseMul(bi(7)), bi(11))
-		before := clonePt(recv)
+		recv := zvFromRef(ref.BaseMul(zvBi(7)), zvBi(11))
+		before := zvClonePt(recv)
 		var q *SM2Point
 		var err error
 		p, msg, _, _ := hk.Try(func() { q, err = recv.SetBytes(e.b) })
@@ -699,14 +699,14 @@ func TestVerifC15(t *testing.T) {
 			r.Violation("setbytes-rejects-valid:"+e.label, d)
 		case !isValid && (err == nil || q != nil):
 			r.Violation("setbytes-accepts-invalid:"+e.label, d)
-		case !isValid && !rawEq(recv, before):
+		case !isValid && !zvRawEq(recv, before):
 			r.Violation("setbytes-failure-clobbers-receiver:"+e.label, d)
 		}
 		r.Eval(fmt.Sprintf("decode:%s,valid=%v", e.label, isValid))
 	}
 }
 
-func leading(b []byte) int {
+func zvLeading(b []byte) int {
 	n := 0
 	for _, c := range b {
 		if c != 0 {
@@ -716,7 +716,6 @@ func leading(b []byte) int {
 	}
 	return n
 }
-
 
 type c15constReader byte
 
